@@ -46,6 +46,7 @@ type pscript struct {
 	writes     [][]byte
 	flush      []bool
 	flushFirst bool // Flush before the first Write (as streaming handlers and proxies do)
+	accel      bool // the handler answers with X-Accel-Redirect to an internal location (and, as proxies do, may flush)
 	hints      bool // an informational 103 Early Hints response before the final one
 	copyMode   int  // 0 Write; 1 io.Copy from a plain Reader (ReadFrom where offered); 2 io.Copy from a WriterTo; 3 io.WriteString
 	panicAt    int  // -1: never; k: before write k (0 = before anything is written); len(writes): after all writes
@@ -207,6 +208,28 @@ func (r *siteRig) probe(label string, next httpserver.Handler, w http.ResponseWr
 			return sc.status, fmt.Errorf("sim: handler error for %s", id)
 		}
 		return sc.status, nil
+	}
+	if sc.accel {
+		if strings.HasPrefix(req.URL.Path, "/secret/") {
+			// the request as re-dispatched to the internal location
+			w.Header().Set("Content-Type", "text/plain")
+			w.WriteHeader(sc.status)
+			io.WriteString(w, "INTERNAL-CONTENT-FOR-"+id)
+			return 0, nil
+		}
+		c.Probe("x-accel-redirect-answered")
+		w.Header().Set("X-Accel-Redirect", "/secret/"+id)
+		w.Header().Set("Content-Type", "text/html")
+		w.WriteHeader(200)
+		if sc.flushFirst {
+			park("accel-flush")
+			if f, ok := w.(http.Flusher); ok {
+				f.Flush() // (as the proxy's periodic flusher does while a slow backend is relayed)
+			}
+		}
+		park("accel-write")
+		io.WriteString(w, "body-the-client-must-never-see")
+		return 0, nil
 	}
 	h := w.Header()
 	if sc.ctype != "" {
@@ -871,7 +894,14 @@ func (r *siteRig) genReq(id, site string) *sreq {
 			sc.copyMode = 1 + st.Draw(3)
 		}
 		sc.hints = pick(7)
-		if pick(8) && sc.status != 204 && sc.status != 304 {
+		if r.hasInternal && pick(12) && q.method == "GET" && r.mode != "C18" {
+			sc.accel = true
+			sc.status = []int{200, 404, 201}[st.Draw(3)]
+			sc.flushFirst = pick(50)
+			sc.hints, sc.retErr, sc.preCE, sc.etag, sc.setCL = false, false, "", "", false
+			sc.writes, sc.flush = [][]byte{[]byte("INTERNAL-CONTENT-FOR-" + id)}, []bool{false}
+		}
+		if pick(8) && sc.status != 204 && sc.status != 304 && !sc.accel {
 			// a response without payload: only the header, or writes of nothing
 			sc.writes, sc.flush = [][][]byte{nil, {{}}, {{}, {}}}[st.Draw(3)], []bool{pick(50), false}
 			sc.explicit = sc.explicit || len(sc.writes) == 0
@@ -882,7 +912,7 @@ func (r *siteRig) genReq(id, site string) *sreq {
 		// the handler reports what it read in the response body
 		sc.status, sc.preCE, sc.writes, sc.flush, sc.flushFirst = 200, "", [][]byte{[]byte("x")}, []bool{false}, false
 	}
-	if pick(15) && r.mode != "C19" {
+	if pick(15) && r.mode != "C19" && !sc.accel {
 		sc.panicAt = st.Draw(len(sc.writes) + 1)
 		if sc.mode == "return" {
 			sc.panicAt = 0
@@ -1102,6 +1132,9 @@ func (r *siteRig) judge() {
 			if resp.Status != wantStatus {
 				c.Violate("C12/status-differs", fmt.Sprintf("want=%d/%s", wantStatus, sc.mode), "request %s (%s %s): handler %s, client got status %d, want %d (%s)", q.id, q.method, q.path, sc.describe(), resp.Status, wantStatus, r.dirSig())
 			}
+		}
+		if sc.accel && resp.Header.Get("X-Accel-Redirect") != "" {
+			c.Violate("C12/header-committed-twice", "internal/x-accel-redirect-leaked", "request %s: the handler answered with X-Accel-Redirect to an internal location; the client got status %d with the X-Accel-Redirect header %q (the held-back response went out)", q.id, resp.Status, resp.Header.Get("X-Accel-Redirect"))
 		}
 		if q.archiveOf != "" {
 			// one response: either an error status, or a 200 whose body IS the archive
